@@ -201,6 +201,42 @@ fn open_random_position(w: &mut World, sc: &Scenario, rec: &mut Recorder) {
     }
 }
 
+/// Grid-style liquidity: a position adjacent to an existing one (sharing a bound as lower/upper)
+/// funded with exactly the same liquidity, so that the shared tick has gross > 0 and net = 0.
+fn mirror_position(w: &mut World, sc: &Scenario, rec: &mut Recorder, pos: &[String], v2: bool) {
+    let src = pick(w, pos);
+    let (l, lo, up) = match w.pos_range(&src) {
+        Some(x) if x.0 > 0 => x,
+        _ => return,
+    };
+    let above = w.rng.gen_bool(0.5);
+    let others: Vec<i32> = sc.bounds.iter().cloned().filter(|b| if above { *b > up } else { *b < lo }).collect();
+    if others.is_empty() {
+        return;
+    }
+    let o = pick(w, &others);
+    let (nlo, nup) = if above { (up, o) } else { (o, lo) };
+    let owner = pick(w, &sc.users);
+    for t in [nlo, nup] {
+        let start = w.ta_start(&sc.pool, t);
+        if !w.ta_exists(&sc.pool, start) {
+            let dynamic = w.pools[&sc.pool].dynamic;
+            let ix = w.ix_init_tick_array(&sc.pool, start, dynamic);
+            rec.exec(w, &ix, true, json!("setup"));
+        }
+    }
+    let kind = pick(w, &[PosKind::Plain, PosKind::TokenExt]);
+    let (ix, info) = w.ix_open_position(&sc.pool, &owner, nlo, nup, kind);
+    let ex = rec.exec(w, &ix, true, json!("mirror"));
+    if !ex.ok() {
+        return;
+    }
+    let name = info.name.clone();
+    w.positions.insert(name.clone(), info);
+    let ix = w.ix_increase(&name, &owner, l, u64::MAX, u64::MAX, v2);
+    rec.exec(w, &ix, false, json!("mirror"));
+}
+
 fn open_positions(w: &World) -> Vec<String> {
     w.positions.iter().filter(|(_, x)| w.bank.accts.contains_key(&x.key)).map(|(n, _)| n.clone()).collect()
 }
@@ -245,6 +281,10 @@ pub fn random_step(w: &mut World, sc: &Scenario, rec: &mut Recorder) {
         return;
     }
     let r = w.rng.gen_range(0..100);
+    if !pos.is_empty() && !sc.full_range_only && w.rng.gen_bool(0.04) {
+        mirror_position(w, sc, rec, &pos, v2);
+        return;
+    }
     if pos.is_empty() || (r < 8 && pos.len() < 7) {
         open_random_position(w, sc, rec);
         return;
